@@ -13,7 +13,7 @@ import (
 
 func init() {
 	register(&Def{ID: "C15", Engine: "E1+E2", Run: runC15,
-		Rule: "predicates: 9 masking predicates x every element type they accept x {soft, hard} x prior mask {none, every pattern over the first 4 elements} x a value ramp with ties; sequences: BFS over (mask, softness) with <= 3 predicate calls and Harden/Soften in between; " +
+		Rule: "predicates: 9 masking predicates x every element type they accept x {soft, hard} x prior mask {none, every pattern over the first 4 elements} x a value ramp with ties, and NaN elements and NaN bounds; sequences: BFS over (mask, softness) with <= 3 predicate calls and Harden/Soften in between; " +
 			"inspection: EVERY mask over <= N elements x shapes (n),(1,n),(n,1),(a,b),(a,b,c) x {MaskedCount, NonMaskedCount, MaskedAny, MaskedAll} without axis and along every axis, run and edge finders, Filled/FilledInplace; masked operands: Add/Sub/Mul/Lt/Neg with every mask over <=4 elements on either operand; " +
 			"mask attachment through T, Transpose, Slice, Clone, Materialize for every mask, and from non-initial states: every mask x every slice/transpose view state (view graph depth 2), read by At/MaskAt, then materialised and cloned. non-trivial = >= 2 elements",
 		Assume: []string{"masks are indexed by storage position; the logical mask of a view is the mask bit of the storage cell each coordinate denotes", "MaskedValues is called with explicit rtol and atol (delta = atol + rtol*|x|)"}})
